@@ -507,6 +507,12 @@ fn shard(ctx: &mut ShardCtx, mode: &'static str, quick: u64, thorough: u64) {
             });
         ctx.search("history", strat, n / 8 + 1, &run);
     }
+    if mode == "c15" {
+        // schema changes are atomic with their transaction across a crash too: the open-schema-change crash shape of
+        // the crash checks, of which C15 owns the constraint clauses (what the tables accept after recovery)
+        let s = super::c01::open_schema_change(ctx, 0);
+        ctx.search("crash_history", s, n / 16 + 1, &schema_crash);
+    }
     if mode == "c13" {
         // update/vacuum cycles on a few rows: contents stay right, storage stays bounded
         let excluded: Vec<String> = ctx.excludes.keys().cloned().collect();
@@ -526,8 +532,23 @@ fn shard(ctx: &mut ShardCtx, mode: &'static str, quick: u64, thorough: u64) {
     }
 }
 
+/// C15's view of a crash history: only the clauses about constraints in force after recovery.
+fn schema_crash(c: &crate::crashsim::CrashCase) -> CaseOut {
+    let mut r = crate::crashsim::run_crash(c);
+    let own = r.failures.iter().find(|f| f.clause.ends_with("constraint_lost") || f.clause.ends_with("constraint_in_force")).cloned();
+    if own.is_none() && !r.failures.is_empty() {
+        r.out.labels.push("other_property_failed_here".into());
+    }
+    r.out.failure = own.map(|f| Failure { clause: format!("ddl.crash.{}", &f.clause[4..]), ..f });
+    r.out
+}
+
 pub fn replay(kind: &str, case: &Value) -> CaseOut {
     match kind {
+        "crash_history" => match from_value::<crate::crashsim::CrashCase>(case) {
+            Ok(c) => schema_crash(&c),
+            Err(e) => CaseOut::fail(Failure::new("bad_replay", e)),
+        },
         "c11_tree_bulk" => super::c10::replay("tree_bulk", case),
         "c11_tree_ops" => super::c10::replay("tree_ops", case),
         "history" => match from_value::<HCase>(case) {
@@ -549,8 +570,8 @@ macro_rules! hist_prop {
     };
 }
 
-hist_prop!(info_c07, shard_c07, "C07", "c07", 8_000, 120_000, "histories on tables with single- and multi-column PRIMARY KEY / UNIQUE constraints declared at CREATE TABLE or by CREATE UNIQUE INDEX and with NOT NULL columns; values from a pool of 12 so key collisions are the norm; INSERT (multi-row, with internal duplicates), UPDATE, DELETE then re-INSERT, rollbacks, VACUUM, two sessions. Oracle two-sided: (a) the model says which statements must fail with a constraint error and which must succeed (spurious_rejection / constraint_not_enforced); (b) invariant on the engine's own SELECT output after every commit: no two live rows equal on a unique column set, no NULL in a NOT NULL column. non-trivial = a history with a failed statement, a delete or a rollback (a key is reused or rejected); distinct = hash of the steps.");
-hist_prop!(info_c09, shard_c09, "C09", "c09", 6_000, 100_000, "histories (committed and rolled-back transactions, failed statements, dropped tables, VACUUM, flush) split at random points by clean close + open, with creation-time page size in {4,8,16 KiB}, cache in {64,512,10000}, pool in {1,2,4} and a different configuration passed to every open. Oracle: model equality of every table and of name resolution right after each reopen and for the rest of the history (new rows, tables and transactions created after the reopen must not collide with old ones). Owned divergences: those at or after the first reopen. non-trivial = a reopen preceded by a non-committed writer or a dropped table and followed by a write; distinct = hash of the steps.");
-hist_prop!(info_c11, shard_c11, "C11", "c11", 4_000, 60_000, "SQL histories biased to page churn (DROP TABLE, deletes, rollbacks, VACUUM, flush, reopen, CREATE of new tables afterwards) on small rows (larger rows while no open finding forbids them); at every quiescent point (no open session, after each autocommit statement / transaction end / vacuum / reopen) the page auditor walks both catalog trees and every relation's tree from the roots listed by the catalog, every overflow chain and the free list: every page 1..total_pages must have exactly one owner, ids in range, free list acyclic and consistent with its recorded tail, leaves at one depth, sibling links mirroring the in-order leaf sequence. non-trivial = a history in which the free list was non-empty at some audit; distinct = hash of the steps.");
-hist_prop!(info_c13, shard_c13, "C13", "c13", 6_000, 100_000, "histories of committed and rolled-back inserts, updates and deletes, failed statements and dropped tables with VACUUM at arbitrary points (sessions are closed first: VACUUM aborts active transactions by contract), optionally reopen in between, more work afterwards; plus update/VACUUM cycles on a few rows. Oracle: the model treats VACUUM as a no-op on logical state: a fresh read of every table right after each VACUUM and for the rest of the history equals the model; the page auditor passes after VACUUM; the database stays usable (the history continues). Owned divergences: those at or after the first VACUUM. non-trivial = a VACUUM that ran after deletes / updates / non-committed writes existed; distinct = hash of the steps.");
-hist_prop!(info_c15, shard_c15, "C15", "c15", 6_000, 100_000, "interleavings of CREATE TABLE / CREATE UNIQUE INDEX / ALTER TABLE ADD COLUMN (with and without DEFAULT) / DROP COLUMN / DROP TABLE with DML on the same and other tables, inside committed and rolled-back transactions and failing batches, names from a pool of 3 so reuse after drop is common, followed by reopen. Oracle: model with versioned DDL: after every step each pool name resolves iff the model has the table, SELECT * of every table equals the model rows in the current shape (added column NULL/default, dropped column gone), other tables unaffected. Owned divergences: those in histories containing DDL beyond the first CREATE TABLE. non-trivial = DDL beyond the initial CREATE followed by a read; distinct = hash of the steps.");
+hist_prop!(info_c07, shard_c07, "C07", "c07", 32_000, 600_000, "histories on tables with single- and multi-column PRIMARY KEY / UNIQUE constraints declared at CREATE TABLE or by CREATE UNIQUE INDEX and with NOT NULL columns; values from a pool of 12 so key collisions are the norm; INSERT (multi-row, with internal duplicates), UPDATE, DELETE then re-INSERT, rollbacks, VACUUM, two sessions. Oracle two-sided: (a) the model says which statements must fail with a constraint error and which must succeed (spurious_rejection / constraint_not_enforced); (b) invariant on the engine's own SELECT output after every commit: no two live rows equal on a unique column set, no NULL in a NOT NULL column. non-trivial = a history with a failed statement, a delete or a rollback (a key is reused or rejected); distinct = hash of the steps.");
+hist_prop!(info_c09, shard_c09, "C09", "c09", 24_000, 400_000, "histories (committed and rolled-back transactions, failed statements, dropped tables, VACUUM, flush) split at random points by clean close + open, with creation-time page size in {4,8,16 KiB}, cache in {64,512,10000}, pool in {1,2,4} and a different configuration passed to every open. Oracle: model equality of every table and of name resolution right after each reopen and for the rest of the history (new rows, tables and transactions created after the reopen must not collide with old ones). Owned divergences: those at or after the first reopen. non-trivial = a reopen preceded by a non-committed writer or a dropped table and followed by a write; distinct = hash of the steps.");
+hist_prop!(info_c11, shard_c11, "C11", "c11", 16_000, 300_000, "SQL histories biased to page churn (DROP TABLE, deletes, rollbacks, VACUUM, flush, reopen, CREATE of new tables afterwards) on small rows (larger rows while no open finding forbids them); at every quiescent point (no open session, after each autocommit statement / transaction end / vacuum / reopen) the page auditor walks both catalog trees and every relation's tree from the roots listed by the catalog, every overflow chain and the free list: every page 1..total_pages must have exactly one owner, ids in range, free list acyclic and consistent with its recorded tail, leaves at one depth, sibling links mirroring the in-order leaf sequence. non-trivial = a history in which the free list was non-empty at some audit; distinct = hash of the steps.");
+hist_prop!(info_c13, shard_c13, "C13", "c13", 24_000, 400_000, "histories of committed and rolled-back inserts, updates and deletes, failed statements and dropped tables with VACUUM at arbitrary points (sessions are closed first: VACUUM aborts active transactions by contract), optionally reopen in between, more work afterwards; plus update/VACUUM cycles on a few rows. Oracle: the model treats VACUUM as a no-op on logical state: a fresh read of every table right after each VACUUM and for the rest of the history equals the model; the page auditor passes after VACUUM; the database stays usable (the history continues). Owned divergences: those at or after the first VACUUM. non-trivial = a VACUUM that ran after deletes / updates / non-committed writes existed; distinct = hash of the steps.");
+hist_prop!(info_c15, shard_c15, "C15", "c15", 24_000, 400_000, "interleavings of CREATE TABLE / CREATE UNIQUE INDEX / ALTER TABLE ADD COLUMN (with and without DEFAULT) / DROP COLUMN / DROP TABLE with DML on the same and other tables, inside committed and rolled-back transactions and failing batches, names from a pool of 3 so reuse after drop is common, followed by reopen. Oracle: model with versioned DDL: after every step each pool name resolves iff the model has the table, SELECT * of every table equals the model rows in the current shape (added column NULL/default, dropped column gone), other tables unaffected. Owned divergences: those in histories containing DDL beyond the first CREATE TABLE. non-trivial = DDL beyond the initial CREATE followed by a read; distinct = hash of the steps.");
